@@ -318,14 +318,15 @@ fn macro_batch() -> Result<(), String> {
         };
         map.insert(name.to_string(), r);
     }
-    // inputs the library rejects: the macro must fail to expand (one crate build per input)
+    // inputs the library rejects: the macro must fail to expand (one crate build per input); how it fails — a panic of the
+    // proc macro or a compile_error! at the invocation — is not the property's subject, only that the build fails there
     for (name, text, _) in MACRO_INPUTS.iter() {
         if lib_ok[*name] {
             continue;
         }
         std::fs::write(format!("{root}/ma/src/lib.rs"), format!("#![allow(warnings)]\npub mod k {{ rasn_compiler_derive::asn1!(r####\"{text}\"####); }}\n")).map_err(|e| e.to_string())?;
         let (ok, _, err) = cargo_in(&root, &["check", "-p", "ma", "--offline"])?;
-        let r = if ok { "expanded-although-library-errs".to_string() } else if err.contains("proc macro panicked") || err.contains("proc-macro") { "failed-as-expected".to_string() } else { format!("failed-otherwise:{}", err.lines().filter(|l| l.contains("error")).take(2).collect::<Vec<_>>().join(" / ")) };
+        let r = if ok { "expanded-although-library-errs".to_string() } else if err.contains("proc macro panicked") || err.contains("proc-macro") || (err.contains("error") && err.contains("src/lib.rs")) { "failed-as-expected".to_string() } else { format!("failed-otherwise:{}", err.lines().filter(|l| l.contains("error")).take(2).collect::<Vec<_>>().join(" / ")) };
         map.insert(name.to_string(), r);
     }
     // leave compiling stubs behind
